@@ -121,6 +121,9 @@ def direct(run, chk):
             body.append((mrnd.randrange(nmod), "depth"))
         body += [(i, "depth") for i in range(nmod)]
         cases.append((src, body))
+    # bookkeeping carried across transformations: depth() after remove_idle_qubits (registers renumbered) and a removal
+    for cs in modcheck.chains(mrnd, "chains", lasts=(("depth",), ("depth", "unroll", "depth"))):
+        cases.append((cs["src"], cs["hist"]))
     codes, real, errs = modcorr.evaluate(cases, tag="c09hist")
     nb = 0
     for (src, h), c, r in zip(cases, codes, real):
